@@ -59,6 +59,7 @@ def build_pe(
     vsize_mode="raw",
     export_at_start=False,
     dos_mode="random",
+    dos_stub_start=b"",
 ):
     """Returns (image bytes, info).  export_section None = no export directory.  `data` is placed at the
     start of section `data_section` (default: the last one)."""
@@ -77,6 +78,8 @@ def build_pe(
         hdr = hdr[:60]
     dos[: len(hdr)] = hdr
     struct.pack_into("<I", dos, 0x3C, lfanew)
+    if dos_stub_start and lfanew >= 64 + len(dos_stub_start):
+        dos[64 : 64 + len(dos_stub_start)] = dos_stub_start  # first bytes of the DOS stub program, right behind e_lfanew
     optsize = 224 if arch == "x86" else 240
     filehdr = struct.pack("<HHIIIHH", MACHINE[arch], nsec, compile_stamp, 0, 0, optsize, 0x2102)
     headers_size = lfanew + 4 + 20 + optsize + 40 * nsec
